@@ -93,7 +93,7 @@ let run_state (a : Sx.t list) : string =
     (match EngineModel.build_full (EngineModel.build_fuel c) c with
      | EngineModel.BOk b ->
        (match EngineModel.start_walk b argv (n_of_z (Sx.num idx)) with
-        | EngineModel.WAt (_, cur, _, st, esc) ->
+        | EngineModel.WAt (_, cur, _, st, esc, _) ->
           "at " ^ hex cur.Cmd.c_name ^ " " ^ show_state st ^ (if esc then " escaped" else " plain")
         | EngineModel.WEnd -> "end"
         | EngineModel.WPanic s -> "panic " ^ Z.to_string (z_of_n s)
